@@ -1,5 +1,6 @@
 import HmfVerif.Real.Tactics
 import HmfVerif.Gen.ExprFlow
+import HmfVerif.Spec.Wiring
 /-!
 # C03 — linear power is normalised to σ₈ and scales with the growth factor
 Algebraic skeleton on the regenerated `Transfer` bodies; the exactness of the normalisation on the
@@ -52,5 +53,8 @@ theorem normalisation_inputs : Gen.Flow.Transfer__normalisation.freeVars = ["sig
 theorem power_elementwise :
     [Gen.Flow.Transfer_power, Gen.Flow.Transfer__power0, Gen.Flow.Transfer__unnormalised_power, Gen.Flow.Transfer_delta_k,
      Gen.Flow.Transfer_transfer_function].all (fun t => t.isElementwise) = true := by decide
+
+/-- the transfer component is built from the object's cosmology (with `cosmo_params` applied) and `transfer_params` only -/
+theorem transfer_component_wiring : Gen.Flow.wiring.lookup "Transfer.transfer" = some Spec.Wiring.transfer := by decide
 
 end Hmf.C03
